@@ -7,6 +7,7 @@ import KyupyVerif.Proofs.WaveStrip
 import KyupyVerif.Proofs.StripLinkLogic
 import KyupyVerif.Proofs.StripLinkMem
 import KyupyVerif.Proofs.WaveIOCheck
+import KyupyVerif.Proofs.WaveIOOrder
 import KyupyVerif.Props.C13
 /-! # C06 — results do not depend on performance options, lane position or code path
 
@@ -915,6 +916,48 @@ example : readWave (rdCells (gpuCProp pathEv pathOps [(0, 2), (2, 3)] 3 2 2 path
     (gpuCProp pathEv pathOps [(0, 2), (2, 3)] 3 2 2 pathS0 0).ab 0 = 6 ∧
     readWave (rdCells (cpuCProp pathEv pathOps [(0, 2), (2, 3)] 3 pathS0 1).c 96 8) = ⟨[T.fin 10, T.fin 25], T.tmax⟩ ∧
     (cpuCProp pathEv pathOps [(0, 2), (2, 3)] 3 pathS0 1).ab 0 = 7 := by decide +kernel
+
+/-- **`level_any_thread_order`: a level under an ARBITRARY thread order** (a real GPU gives none). Every list of threads that is
+    a permutation of the work items `(sim, op)` of the level leaves the same `c` and `abuf` as `level_eval_cpu`, for every
+    evaluator whose reads are confined to `rd o` and whose writes to `wr o` (`EvLocal`), provided the ops of the level are
+    pairwise footprint-independent (`OpsIndep`: the write set of each is disjoint from the read and write sets of the other —
+    what the level partition and the memory map guarantee, C07/C08). Work items of different lanes always commute;
+    accumulation into a shared `abuf` cell commutes because it is an addition. -/
+theorem level_any_thread_order (ev : Ev) (rd wr : OpRow → Int → Prop) (hev : EvLocal ev rd wr) (ops : List AOp)
+    (opStart opStop sims : Nat)
+    (hind : ∀ y y', y < opStop - opStart → y' < opStop - opStart → y ≠ y' →
+      OpsIndep rd wr (ops.getD (opStart + y) default).op (ops.getD (opStart + y') default).op)
+    (l : List (Nat × Nat)) (hl : l.Perm (cpuLoop sims (opStop - opStart))) (S : Nat → LaneSt) :
+    runLanes (evalWork ev ops opStart) l S = cpuLevel ev ops opStart opStop 0 sims S :=
+  level_any_order ev rd wr hev ops opStart opStop sims hind l hl S
+
+/-- … instantiated with the evaluator built from the waveform model: its footprints are the regions `c_locs[i] … + c_caps[i]`
+    of the output index (read and written) and of the operand indices (read); independence of two rows is the Boolean
+    `opsIndepB` on `c_locs` / `c_caps` -/
+theorem level_any_thread_order_wave (g : WCfg) (loc : Nat → Int) (hcap : ∀ i, 2 ≤ g.cap i) (ops : List AOp)
+    (opStart opStop sims : Nat)
+    (hind : ∀ y y', y < opStop - opStart → y' < opStop - opStart → y ≠ y' →
+      opsIndepB loc g.cap (ops.getD (opStart + y) default).op (ops.getD (opStart + y') default).op = true)
+    (l : List (Nat × Nat)) (hl : l.Perm (cpuLoop sims (opStop - opStart))) (S : Nat → LaneSt) :
+    runLanes (evalWork (evWave (fun _ => g) loc) ops opStart) l S = cpuLevel (evWave (fun _ => g) loc) ops opStart opStop 0 sims S :=
+  level_any_order _ _ _ (evWave_local g loc hcap) ops opStart opStop sims
+    (fun y y' hy hy' hne => opsIndepB_sound (hind y y' hy hy' hne)) l hl S
+
+/-- non-vacuity: level 1 of the example (`10 = AND(0,1)`, `11 = XOR(1,2)`, regions of 8 cells) with its six threads in a
+    scrambled order -/
+example : runLanes (evalWork pathEv pathOps 0) [(2, 1), (0, 0), (1, 1), (2, 0), (0, 1), (1, 0)] pathS0 =
+    cpuLevel pathEv pathOps 0 2 0 3 pathS0 :=
+  level_any_thread_order_wave ⟨fun l _ _ => if l = 1 then 3 else 2, fun _ => 8⟩ (fun i => 8 * i) (fun _ => (by decide : 2 ≤ 8)) pathOps 0 2 3
+    (by
+      intro y y' hy hy' hne
+      have h1 : y = 0 ∨ y = 1 := by omega
+      have h2 : y' = 0 ∨ y' = 1 := by omega
+      rcases h1 with rfl | rfl <;> rcases h2 with rfl | rfl
+      · exact absurd rfl hne
+      · decide
+      · decide
+      · exact absurd rfl hne)
+    _ (by decide) pathS0
 
 /-! ### capture (`c_to_s`, `sd = 0`) -/
 
